@@ -206,6 +206,53 @@ def c13_constants(srcdir):
     return C
 
 
+def c05_constants(srcdir):
+    """C05: sizes of the fixed buffers the server-side safety theorems refer to (iodined.c, user.h,
+    common.h).  A size is a product/sum of decimal literals (64*1024, 8 + 1)."""
+    def size_expr(txt):
+        txt = txt.strip()
+        if not re.fullmatch(r'[0-9+*() \t]+', txt):
+            raise TranslatorError('translator: C05 buffer size %r is not a literal expression' % txt)
+        return int(eval(txt, {'__builtins__': {}}, {}))
+
+    def grab(text, pattern, what, fname):
+        m = re.search(pattern, text, flags=re.S)
+        if not m:
+            raise TranslatorError('translator: anchor %s not found in %s' % (what, fname))
+        return m
+
+    C = {}
+    ic = strip_comments(read(srcdir, 'iodined.c'))
+    m = grab(ic, r'save_to_qmem_pingordata\s*\([^)]*\)\s*\{.*?char\s+cmc\s*\[([^\]]+)\]\s*;.*?size_t\s+cmcsize\s*=\s*sizeof\s*\(\s*cmc\s*\)\s*(-\s*\d+)?\s*;',
+             'save_to_qmem_pingordata cmc[] / cmcsize', 'iodined.c')
+    C['C05_CMC_BUF'] = size_expr(m.group(1))
+    C['C05_CMC_CAP'] = C['C05_CMC_BUF'] - (int(m.group(2).replace('-', '').strip()) if m.group(2) else 0)
+    m = grab(ic, r'\nstatic\s+int\s+send_chunk_or_dataless\s*\([^)]*\)\s*\{\s*char\s+pkt\s*\[([^\]]+)\]\s*;.*?datalen\s*=\s*MIN\s*\(\s*datalen\s*,\s*sizeof\s*\(\s*pkt\s*\)\s*-\s*(\d+)\s*\)',
+             'send_chunk_or_dataless pkt[] / clamp', 'iodined.c')
+    C['C05_PKT_BUF'] = size_expr(m.group(1))
+    C['C05_PKT_HDR'] = int(m.group(2))
+    m = grab(ic, r'\nstatic\s+void\s+send_raw\s*\([^)]*\)\s*\{\s*char\s+packet\s*\[([^\]]+)\]\s*;.*?len\s*=\s*MIN\s*\(\s*sizeof\s*\(\s*packet\s*\)\s*-\s*RAW_HDR_LEN\s*,\s*buflen\s*\)',
+             'send_raw packet[] / clamp', 'iodined.c')
+    C['C05_RAWPKT_BUF'] = size_expr(m.group(1))
+    m = grab(ic, r'\nhandle_null_request\s*\([^)]*\)\s*\{.*?char\s+in\s*\[([^\]]+)\]\s*;.*?char\s+unpacked\s*\[([^\]]+)\]\s*;.*?memcpy\s*\(\s*in\s*,\s*q->name\s*,\s*MIN\s*\(\s*domain_len\s*,\s*sizeof\s*\(\s*in\s*\)\s*\)\s*\)',
+             'handle_null_request in[] / unpacked[] / copy', 'iodined.c')
+    C['C05_IN_BUF'] = size_expr(m.group(1))
+    C['C05_UNPACKED_BUF'] = size_expr(m.group(2))
+    grab(ic, r'save_to_dnscache\s*\([^)]*\)[^{]*\{.*?if\s*\(\s*answerlen\s*>\s*sizeof\s*\(\s*users\[userid\]\.dnscache_answer\[fill\]\s*\)\s*\)\s*return\s*;',
+         'save_to_dnscache size guard', 'iodined.c')
+    grab(ic, r'read\s*=\s*MIN\s*\(\s*read\s*,\s*sizeof\s*\(\s*users\[userid\]\.inpacket\.data\s*\)\s*-\s*users\[userid\]\.inpacket\.offset\s*\)\s*;',
+         'data handler reassembly clamp', 'iodined.c')
+    grab(ic, r'datalen\s*=\s*MIN\s*\(\s*datalen\s*,\s*sizeof\s*\(\s*users\[userid\]\.outpacket\.data\s*\)\s*\)\s*;',
+         'start_new_outpacket clamp', 'iodined.c')
+    uh = strip_comments(read(srcdir, 'user.h'))
+    m = grab(uh, r'char\s+dnscache_answer\s*\[\s*DNSCACHE_LEN\s*\]\s*\[([^\]]+)\]\s*;', 'dnscache_answer[][]', 'user.h')
+    C['C05_DNSCACHE_ANSWER'] = size_expr(m.group(1))
+    ch = strip_comments(read(srcdir, 'common.h'))
+    m = grab(ch, r'struct\s+packet\s*\{.*?char\s+data\s*\[([^\]]+)\]\s*;', 'struct packet data[]', 'common.h')
+    C['C05_PACKET_DATA'] = size_expr(m.group(1))
+    return C
+
+
 def _func_body(text, name, fname):
     """text of the body { ... } of the function definition `name(` (brace matched)."""
     m = re.search(r'\n' + re.escape(name) + r'\s*\([^)]*\)\s*(?:/\*.*?\*/\s*)*\{', text, flags=re.S)
@@ -449,6 +496,14 @@ def generate(srcdir):
     C['LOGIN_WORDS'] = anchored_int(login_c, r'login_calculate\s*\(.*?for\s*\(\s*i\s*=\s*0\s*;\s*i\s*<\s*(\d+)\s*;\s*i\+\+\s*\)', 'login_calculate word loop bound', 'login.c')
     C['LOGIN_MD5_LEN'] = anchored_int(login_c, r'login_calculate\s*\(.*?md5_append\s*\(\s*&ctx\s*,\s*temp\s*,\s*(\d+)\s*\)', 'login_calculate md5_append length', 'login.c')
 
+    # C05 anchors are local to C05 (same policy as C13): a missing anchor omits the constants, so that
+    # only Properties_C05.v stops building
+    c05_err = None
+    try:
+        C.update(c05_constants(srcdir))
+    except TranslatorError as e:
+        c05_err = str(e)
+
     lines = []
     lines.append('(* GENERATED by tools/gen_consts.py from the repository sources on every run. DO NOT EDIT. *)')
     lines.append('From Coq Require Import List NArith.')
@@ -469,6 +524,8 @@ def generate(srcdir):
             lines.append('Definition src_%s : list (list N) := [%s].' % (k, '; '.join(v.split()[1:])))
     if c13_err:
         lines.append('(* C13 constants omitted: %s *)' % c13_err.replace('*)', '* )'))
+    if c05_err:
+        lines.append('(* C05 constants omitted: %s *)' % c05_err.replace('*)', '* )'))
     if c11_err:
         lines.append('(* C11 constants omitted: %s *)' % c11_err.replace('*)', '* )'))
     lines.append('')
